@@ -31,7 +31,8 @@ NIL == 0
 Pairs == {pr \in Nodes \X Nodes : pr[1] < pr[2]}
 VARIABLES W, L, pc, key, col, pred, proto, cost, lab, order
 vars == <<W, L, pc, key, col, pred, proto, cost, lab, order>>
-Wt(a, b) == IF a < b THEN W[<<a, b>>] ELSE W[<<b, a>>]
+\* total on Nodes \X Nodes: a sample is at distance 0 from itself (only a recorded forest can ask for it - no action links a sample to itself)
+Wt(a, b) == IF a = b THEN 0 ELSE IF a < b THEN W[<<a, b>>] ELSE W[<<b, a>>]
 Max(a, b) == IF a > b THEN a ELSE b
 Min(a, b) == IF a < b THEN a ELSE b
 
